@@ -511,6 +511,27 @@ Proof.
   apply nth_error_In in Hn. rewrite (Hno g Hn) in Hs. discriminate.
 Qed.
 
+(* the directories matter through their period only: two layouts of the same period (both inside C01's hypotheses
+   for the tree) give the same answer -- in particular nothing changes when t sits exactly on a directory boundary *)
+Theorem layout_matters_through_period_thm lay1 lay2 fs w b ex t :
+  tree_hyps lay1 fs -> tree_hyps lay2 fs -> window_ok lay1 t -> window_ok lay2 t ->
+  Forall (fun '(a, b) => a <= b) ex -> tree_period lay1 = tree_period lay2 ->
+  tree_search lay1 fs w b ex t = tree_search lay2 fs w b ex t.
+Proof.
+  intros H1 H2 W1 W2 Hex HP.
+  destruct (closest_end_to_end_thm lay1 fs w b ex t H1 W1 Hex) as (r1 & E1 & S1).
+  destruct (closest_end_to_end_thm lay2 fs w b ex t H2 W2 Hex) as (r2 & E2 & S2).
+  rewrite E1, E2.
+  assert (Hw : window lay1 t = window lay2 t).
+  { unfold window. unfold tree_period in HP. destruct lay1 as [|c1 l1], lay2 as [|c2 l2]; try discriminate; [reflexivity|].
+    assert (HL : F.lookback (c1 :: l1) = F.lookback (c2 :: l2)) by congruence. rewrite HL. reflexivity. }
+  assert (Hc : forall f, tcand lay1 t w b ex f = tcand lay2 t w b ex f).
+  { intros f. unfold tcand, window_query. rewrite Hw. reflexivity. }
+  assert (S1' : FirstSpec F.t0 F.t1 (tcand lay2 t w b ex) t fs r1).
+  { apply (first_spec_ext F.t0 F.t1 _ (tcand lay1 t w b ex)); [|exact S1]. intros f _. symmetry. apply Hc. }
+  rewrite (first_unique F.t0 F.t1 _ t fs r1 r2 S1' S2). reflexivity.
+Qed.
+
 (* ------------------------------------------------------------------ the whole of find_closest on the tree *)
 
 Lemma first_to_tree lay fs w b ex t r :
